@@ -37,6 +37,14 @@ DECLS = {
 }
 
 
+def embedded(decl):
+    """the same fields reaching the class through Ref(Sub, embed=True): C0 = [emb = Ref(C1, embed=True)] + fields of C1"""
+    fs = decl["C0"]["fields"]
+    return {"C1": {"opts": decl["C0"]["opts"], "fields": fs},
+            "C0": {"opts": decl["C0"]["opts"],
+                   "fields": [{"k": "Emb", "name": "emb", "cls": "C1", "over": [], "n": len(fs), "mv": NOMV}] + fs}}
+
+
 def tval(kind, t):
     return list(t) if kind == "rep" else bytes(t)
 
@@ -90,8 +98,8 @@ def _wrun(chunk):
     bad = []
     n = 0
     for c in chunk:
-        for gen in (rp.GEN_OFF, None):
-            cls = _W["sc"].load(DECLS[c["kind"]], gen).C0
+        for gen, emb in ((rp.GEN_OFF, False), (None, False), (rp.GEN_OFF, True), (None, True)):
+            cls = _W["sc"].load(embedded(DECLS[c["kind"]]) if emb else DECLS[c["kind"]], gen).C0
             live = Live(cls, c["kind"])
             n += 1
             for i, e in enumerate(c["hist"]):
@@ -99,7 +107,7 @@ def _wrun(chunk):
                     o = live.do(e["op"], e["arg"])
                 except Exception as ex:
                     bad.append({"clause": "C17_Outcome", "detail": "operation %d (%s) raised %s: %s" % (i, e["op"], type(ex).__name__, str(ex)[:150]),
-                                "kind": c["kind"], "gen": gen, "hist": [[x["op"], x["arg"]] for x in c["hist"][:i + 1]]})
+                                "kind": c["kind"], "gen": gen, "embedded": emb, "hist": [[x["op"], x["arg"]] for x in c["hist"][:i + 1]]})
                     break
                 diffs = []
                 if o["ok"] != e["ok"]:
@@ -117,7 +125,7 @@ def _wrun(chunk):
                 if diffs:
                     bad.append({"clause": diffs[0], "detail": "after operation %d (%s %r): code %r / %r, specification %r / %r" % (
                         i, e["op"], e["arg"], o["obs"], o["out"], e["obs"], e["out"]),
-                        "kind": c["kind"], "gen": gen, "hist": [[x["op"], x["arg"]] for x in c["hist"][:i + 1]]})
+                        "kind": c["kind"], "gen": gen, "embedded": emb, "hist": [[x["op"], x["arg"]] for x in c["hist"][:i + 1]]})
                     break
     return n, bad
 
